@@ -18,6 +18,8 @@ _hy_macros key set of M after every op and the number of core-shadow
 RuntimeWarnings of every op; after a failing op the model is unchanged and the
 following ops must still agree.
 """
+import contextlib
+import io
 import sys
 import types
 import warnings
@@ -41,6 +43,7 @@ USER = ["u1", "u-two", "u3", "_upriv"]
 LIBS = [
     {"name": "c35liba", "macros": ["a1", "a-two", "_apriv", "when"], "exports": None},
     {"name": "c35libb", "macros": ["b1", "b-two", "_bpriv", "u1"], "exports": ["b1", "_bpriv", "u1"]},
+    {"name": "c35libc", "macros": ["c1", "u3"], "exports": []},
 ]
 
 
@@ -120,7 +123,7 @@ class G:
     def probes(self):
         rng = self.rng
         names = rng.sample(USER + CORE_SHADOW + ["a1", "a-two", "b1", "zz", "L.a1", "M-x.b1", "c35liba.a1", "c35libb.b1", "_apriv",
-                                                 "al-a1", "al-b1", "c35liba._apriv", "c35libb.u1"], rng.randint(2, 6))
+                                                 "al-a1", "al-b1", "c35liba._apriv", "c35libb.u1", "c1", "L.c1", "c35libc.c1", "al-c1"], rng.randint(2, 6))
         return ["probe", names]
 
     def stmts(self, depth, n=None):
@@ -163,8 +166,12 @@ def generate(rng, tier):
             # a local macro whose body raises while expanding; the defmacro before it in the same op must not survive
             ops.append({"op": "eval", "stmts": [["scope", rng.choice(["defn", "defclass", "lfor"]),
                                                   [g.defmacro(), ["badmacro"], g.probes()]]], "fails": "expand"})
-    ops.append({"op": "eval", "stmts": [["probe", USER + CORE_SHADOW + ["a1", "b1", "zz", "L.a1", "c35liba.a1"]]]})
-    return {"ops": ops}
+    ops.append({"op": "eval", "stmts": [["probe", USER + CORE_SHADOW + ["a1", "b1", "zz", "L.a1", "c35liba.a1", "c1"]]]})
+    fe = "repl" if rng.random() < 0.3 else "eval"
+    if fe == "repl":
+        for o in ops:
+            o.pop("extra", None)   # the :macros argument belongs to hy.eval only
+    return {"ops": ops, "fe": fe}
 
 
 # ------------------------------------------------------------------ rendering
@@ -219,6 +226,7 @@ class Model:
     def __init__(self):
         self.module = {}          # mangled name -> tag
         self.core = _S["core"]
+        self.base_options = None  # set to a dict when one compiler serves the whole history (REPL front end)
 
     def exported(self, lib):
         if lib["exports"] is not None:
@@ -251,7 +259,8 @@ class Model:
         out = []
         warn = [0]
         frames = []      # local macro dicts, innermost last
-        options = [{}]   # warn option per local state (index 0 = module level of this compile)
+        base = dict(self.base_options) if self.base_options is not None else {}
+        options = [base]   # warn option per local state (index 0 = module level of this compiler)
 
         def warn_on(name):
             if mangle(name) in self.core:
@@ -309,6 +318,7 @@ class Model:
                             options.pop()
 
         walk(stmts)
+        self._new_base = base
         return out, warn[0], module
 
 
@@ -364,6 +374,14 @@ def execute(desc):
     sys.modules[name] = M
     M.OUT = []
     model = Model()
+    repl = None
+    sink = io.StringIO()
+    if desc.get("fe") == "repl":
+        with contextlib.redirect_stdout(sink), contextlib.redirect_stderr(sink):
+            repl = hy.REPL(locals={"__name__": name})
+        M = repl.module
+        M.OUT = []
+        model.base_options = {}
     events, viols = [], []
     faults = {"failing_require_missing_module": 0, "failing_require_missing_name": 0, "local_macro_raises_while_expanding": 0}
     probes = {"ops": 0, "probes": 0, "probes_decided_by_precedence": 0, "core_shadow_warnings": 0, "ops_after_failure": 0,
@@ -392,11 +410,19 @@ def execute(desc):
                 extra = {k: (lambda t: (lambda: hy.models.String(t)))(t) for k, t in extra_tags.items()}
             with warnings.catch_warnings(record=True) as wlist:
                 warnings.simplefilter("always")
-                try:
-                    hy.eval(hy.read_many(src), module=M, macros=extra)
-                    got = ("ok",)
-                except BaseException as e:
-                    got = ("exc", type(e).__name__, str(e)[:200])
+                if repl is not None:
+                    # one long-lived compiler: the REPL's
+                    prev_e = repl.locals.get(hy.mangle("*e"))
+                    with contextlib.redirect_stdout(sink), contextlib.redirect_stderr(sink):
+                        more = repl.runsource(src + "\n")
+                    cur_e = repl.locals.get(hy.mangle("*e"))
+                    got = ("ok",) if cur_e is prev_e and not more else ("exc", type(cur_e).__name__, str(cur_e)[:200])
+                else:
+                    try:
+                        hy.eval(hy.read_many(src), module=M, macros=extra)
+                        got = ("ok",)
+                    except BaseException as e:
+                        got = ("exc", type(e).__name__, str(e)[:200])
             got_warn = sum(1 for w in wlist if issubclass(w.category, RuntimeWarning) and "shadow the core macro" in str(w.message))
             kinds = _kinds(stmts)
             probes["scopes"] += kinds.count("scope")
@@ -415,6 +441,8 @@ def execute(desc):
                                       "detail": {"op": oi, "got": got_warn, "expected": want_warn, "src": src[:1200]}})
                     probes["core_shadow_warnings"] += got_warn
                     model.module = new_module
+                    if model.base_options is not None:
+                        model.base_options = model._new_base
                     if len(set(want_out) - {"UNDEF", None}) >= 1 and _has_shadowing(stmts, model, extra_tags):
                         probes["probes_decided_by_precedence"] += 1
                         nontrivial = True
@@ -510,6 +538,8 @@ def shrink(desc):
         for i in range(0, n, size):
             yield dict(desc, ops=ops[:i] + ops[i + size:])
         size //= 2
+    if desc.get("fe") == "repl":
+        yield dict(desc, fe="eval")
     for i, op in enumerate(ops):
         if op.get("extra"):
             yield dict(desc, ops=ops[:i] + [{k: v for k, v in op.items() if k != "extra"}] + ops[i + 1:])
